@@ -375,6 +375,78 @@ def _rvalue_places(rv):
                 yield p, ('m' if 'm' in o else 'c')
 
 
+BASELINE = os.path.join(os.path.dirname(os.path.dirname(os.path.abspath(__file__))), 'tables', 'baseline_fns.json')
+
+
+def fn_sig(fj, crate):
+    return [crate, fj['kind'], fj['args'], fj['ret']]
+
+
+def adt_sig(a, crate):
+    st = a['kind'] != 'enum'
+    return [crate, a['kind'], [[None if st else v['name'], [[f['name'], f['ty']] for f in v['fields']]] for v in a['variants']]]
+
+
+def _match(missing, fresh):
+    """baseline item -> the unique new item of identical signature (ties broken by same parent path or same name)"""
+    out, used = {}, set()
+    par = lambda q: q.rsplit('::', 1)[0]
+    last = lambda q: q.rsplit('::', 1)[-1]
+    for p, s in sorted(missing.items()):
+        cands = [q for q, t in fresh.items() if t == s]
+        if len(cands) > 1:
+            same = [q for q in cands if par(q) == par(p)]
+            nm = [q for q in cands if last(q) == last(p)]
+            cands = same if len(same) == 1 else (nm if len(nm) == 1 else cands)
+        others = [m for m, t in missing.items() if t == s]
+        if len(cands) == 1 and cands[0] not in used and (len(others) == 1 or par(cands[0]) == par(p) or last(cands[0]) == last(p)):
+            out[cands[0]] = p
+            used.add(cands[0])
+    return out
+
+
+def _substitute(texts, aliases):
+    if not aliases:
+        return texts
+    rx = re.compile(r'(?<![\w:])(' + '|'.join(re.escape(n) for n in sorted(aliases, key=len, reverse=True)) + r')(?!\w)')
+    return [rx.sub(lambda m: aliases[m.group(1)], t) for t in texts]
+
+
+def read_under_baseline_names(texts):
+    """Private helpers and private types may be renamed or moved without any change of behaviour.  The rules name
+    items by today's paths (tables/baseline_fns.json: path -> signature on the pinned tree).  A baseline item that
+    is gone is identified with an item that is new when exactly one new item of the same crate has the identical
+    signature (types: kind, variant and field names and field types; functions: argument and return types); the
+    facts are then read under the baseline name.  The bodies that are analysed are always the current ones, so this
+    only adds tolerance to renames; it cannot hide a changed behaviour.  Types first (function signatures mention them)."""
+    try:
+        with open(BASELINE) as fh:
+            base = json.load(fh)
+    except OSError:
+        return texts, {}
+    aliases = {}
+    for what in ('adts', 'fns'):
+        docs = [json.loads(t) for t in texts]
+        crates = {d['crate'] for d in docs}
+        cur = {}
+        for d in docs:
+            if what == 'adts':
+                for a in d['adts']:
+                    if not a.get('in_body') and a['path'].split('::')[0] == d['crate']:
+                        cur.setdefault(a['path'], adt_sig(a, d['crate']))
+            else:
+                for fj in d['fns']:
+                    if fj['kind'] in ('Fn', 'AssocFn') and not fj['path'].startswith('<'):
+                        cur.setdefault(fj['path'], fn_sig(fj, d['crate']))
+        missing = {p: s for p, s in base[what].items() if p not in cur and s[0] in crates}
+        fresh = {p: s for p, s in cur.items() if p not in base[what]}
+        m = _match(missing, fresh) if missing and fresh else {}
+        if m:
+            aliases.update(m)
+            texts = _substitute(texts, m)
+    return texts, aliases
+
+
 class Program:
     """all facts of one build configuration"""
 
@@ -390,9 +462,14 @@ class Program:
         files = sorted(glob.glob(os.path.join(facts_dir, '*.json')))
         if not files:
             raise FactsError('no fact files in %s' % facts_dir)
+        docs = []
         for fp in files:
             with open(fp) as fh:
-                d = json.load(fh)
+                docs.append((fp, fh.read()))
+        texts, self.aliases = read_under_baseline_names([t for _, t in docs])
+        docs = [(fp, t) for (fp, _), t in zip(docs, texts)]
+        for fp, text in docs:
+            d = json.loads(text)
             key = (d['crate'], tuple(d['crate_types']), d.get('test_harness', False))
             if key in self.crates:
                 continue  # same crate compiled twice (host/target); identical source
